@@ -32,7 +32,7 @@ def event_for(cls, obj, origin):
     if out != 'ok':
         return None            # no wire form (C01's trivial case)
     wire = bytes(wire)
-    if len(wire) > 6000:
+    if len(wire) > (6000 if not kind.startswith('ssl2') else 40000):
         return None
     out2, wire2, _ = call(lambda o: o.compose(), obj)     # composing is repeatable: the second result is the same bytes
     again_same = out2 == 'ok' and bytes(wire2) == wire
@@ -46,6 +46,56 @@ def event_for(cls, obj, origin):
             back_same = False
     return {'ev': 'msg', 'kind': kind, 'abs': a, 'wire': list(wire), 'back_same': back_same, 'again_same': again_same, 'origin': origin,
             'cls': type(obj).__name__}
+
+
+def alt_events(obj, origin):
+    """SSL 2.0 records in the three-byte-header form with padding: built here from the library's two-byte form, checked by
+    TLC to be the specified encoding of the same abstract value, then given to the parser"""
+    try:
+        ab = wire_tls.message_abs(obj)
+    except Exception:  # pylint: disable=broad-except
+        return []
+    if ab is None or not ab[0].startswith('ssl2'):
+        return []
+    kind, a = ab
+    out, wire, _ = call(lambda o: o.compose(), obj)
+    if out != 'ok':
+        return []
+    body = bytes(wire)[2:]
+    evs = []
+    for pad in (0, 1, 7):
+        ln = len(body) + pad
+        if ln >= 16384:
+            continue
+        alt = bytes([ln >> 8, ln & 0xff, pad]) + body + bytes(pad)
+        o2, res, _ = call(type(obj).parse_immutable, alt)
+        back_same, n = False, 0
+        if o2 == 'ok':
+            try:
+                b = wire_tls.message_abs(res[0])
+                n = res[1]
+                back_same = b is not None and b[0] == kind and json.dumps(b[1], sort_keys=True) == json.dumps(a, sort_keys=True)
+            except Exception:  # pylint: disable=broad-except
+                back_same = False
+        evs.append({'ev': 'alt', 'kind': kind, 'abs': a, 'pad': pad, 'wire': list(alt), 'parse': o2, 'n': n, 'back_same': back_same,
+                    'origin': origin + ':3-byte-header-pad%d' % pad, 'cls': type(obj).__name__})
+    return evs
+
+
+def ssl2_objects():
+    """SSL 2.0 records at the sizes where the header forms matter: bodies of 16383 / 16384 / 32766 octets (the 14-bit
+    limit of the padded form, the 15-bit limit of the plain form)"""
+    from cryptoparser.tls.record import SslRecord
+    from cryptoparser.tls.subprotocol import SslHandshakeServerHello, SslHandshakeClientHello, SslErrorMessage, SslErrorType
+    from cryptoparser.tls.ciphersuite import SslCipherKind
+    kinds = list(SslCipherKind)
+    out = [SslRecord(message=SslErrorMessage(error_type=e)) for e in SslErrorType]
+    for n in (0, 1, 255, 256, 5000, 16383 - 11, 16384 - 11, 16385 - 11, 32767 - 11 - 3):
+        out.append(SslRecord(message=SslHandshakeServerHello(certificate=bytes(i * 7 & 0xff for i in range(n)), cipher_kinds=kinds[:1],
+                                                             connection_id=b'', session_id_hit=bool(n & 1))))
+    out.append(SslRecord(message=SslHandshakeServerHello(certificate=b'\x30\x00', cipher_kinds=kinds, connection_id=bytes(range(16)))))
+    out.append(SslRecord(message=SslHandshakeClientHello(cipher_kinds=kinds[::-1], session_id=bytes(range(16)), challenge=bytes(range(32)))))
+    return out
 
 
 def drive(arg):
@@ -63,6 +113,7 @@ def drive(arg):
         e = event_for(cls, obj, 'parsed')
         if e:
             events.append(e)
+        events += alt_events(obj, 'parsed')
         for desc, var in variants.variants(obj, rng, pool, per_field=30 if thorough else 10, others=objs):
             e = event_for(cls, var, 'variant:' + desc)
             if e:
@@ -246,6 +297,11 @@ def collect(rep, thorough):
     events = []
     for evs in pmap(drive, args):
         events += evs
+    for o in ssl2_objects():
+        e = event_for(type(o), o, 'ssl2-sizes')
+        if e:
+            events.append(e)
+        events += alt_events(o, 'ssl2-sizes')
     for o in big_random(rep, thorough):
         e = event_for(type(o), o, 'random')
         if e:
